@@ -458,7 +458,7 @@ CFGS = [
 
 def engine_cases(rng, tier):
     out = []
-    n = 8 if tier == "quick" else 300
+    n = 8 if tier == "quick" else 200
     for h in range(n):
         cfg, mode = CFGS[h % len(CFGS)] if h < 8 else rng.choice(CFGS)
         passive = (h % 3 == 1)
@@ -623,14 +623,27 @@ def run_history(c):
                 res["obs"].append({"tag": tag, "cmd": cmd, "ret": ret, "scope": scope, "status": r["status"], "rows": rows, "layout": lay,
                                    "groups": groups, "err": r.get("error")})
 
-        def flush(ids):
-            r = eng.cmd("FLUSH")
-            eng.cmd("!flushwait")
-            live = [i for i in ids if i in layout]
-            for i in live:
-                layout[i][1] = 0
-            if live:
+        def seg_dirs():
+            return sorted(d for d in eng.dir_digest(False).get("shard-0", {}).get("segs", {}))
+
+        def mark_flushed(ids, before, how):
+            """The layout follows what the engine DID: the rows count as flushed only if a new segment directory appeared."""
+            live = [i for i in ids if i in layout and layout[i][1] is None]
+            after = seg_dirs()
+            if not live:
+                return
+            if [d for d in after if d not in before]:
+                for i in live:
+                    layout[i][1] = 0
                 segs.append(live)
+            else:
+                res["notes"].append(f"{how}: no new segment directory ({before} -> {after}); rows stay in memory")
+
+        def flush(ids):
+            before = seg_dirs()
+            eng.cmd("FLUSH")
+            eng.cmd("!flushwait")
+            mark_flushed(list(layout), before, "FLUSH")
 
         batches = c["batches"]
         if plan.get("passive"):
@@ -638,20 +651,20 @@ def run_history(c):
             # worker is parked before it writes anything (no earlier segment exists, so the known C03
             # read-during-flush finding cannot interfere)
             store(batches[0][:-1])
+            before = seg_dirs()
             pk = eng.cmd("!park fw_begin")
             store(batches[0][-1:])
             w = eng.cmd("!wait_parked fw_begin 3000") if pk.get("ok") else {}
             if w.get("parked"):
                 observe("passive", wait=False)
+                eng.cmd("!release fw_begin")
+                eng.cmd("!flushwait")
+                mark_flushed(batches[0], before, "rotation")
             else:
+                # a rejected STORE left the memtable short of its capacity: nothing rotated, flush explicitly
                 res["notes"].append(f"flush worker did not park at fw_begin: {pk} {w}")
-            eng.cmd("!release fw_begin")
-            eng.cmd("!flushwait")
-            live = [i for i in batches[0] if i in layout]
-            for i in live:
-                layout[i][1] = 0
-            if live:
-                segs.append(live)
+                eng.cmd("!release fw_begin")
+                flush(batches[0])
             observe("seg")
             batches = [[]] + list(batches[1:])
         store(batches[0])
@@ -838,7 +851,12 @@ def run_sides(cases_, model_ok):
                 return r2
             return r
 
-        with concurrent.futures.ThreadPoolExecutor(max_workers=6) as ex:
+        import os as _os
+        try:
+            idle = _os.getloadavg()[0] < (_os.cpu_count() or 8)
+        except OSError:
+            idle = False
+        with concurrent.futures.ThreadPoolExecutor(max_workers=10 if (idle and len(en_idx) > 20) else 6) as ex:
             rs = list(ex.map(run_retry, [cases_[i] for i in en_idx]))
         want = {}
         for i, r in zip(en_idx, rs):
